@@ -22,10 +22,17 @@ type ptrKey struct {
 	typ reflect.Type
 }
 
+type sliceKey struct {
+	ptr      uintptr
+	len, cap int
+	typ      reflect.Type
+}
+
 func newDeepCopier() *deepCopier {
 	return &deepCopier{
-		ptrMap: map[ptrKey]reflect.Value{},
-		mapMap: map[uintptr]reflect.Value{},
+		ptrMap:   map[ptrKey]reflect.Value{},
+		mapMap:   map[uintptr]reflect.Value{},
+		sliceMap: map[sliceKey]reflect.Value{},
 	}
 }
 
@@ -37,6 +44,11 @@ type deepCopier struct {
 	// map from input map-pointer to output-map to handle
 	// reference cycles.
 	mapMap map[uintptr]reflect.Value
+
+	// map from input slice (backing array, length, capacity and type) to
+	// output slice to handle reference cycles through slices of
+	// interface values.
+	sliceMap map[sliceKey]reflect.Value
 }
 
 func (d *deepCopier) deepCopyValue(v reflect.Value) reflect.Value {
@@ -115,8 +127,11 @@ func (d *deepCopier) deepCopyIface(in, out reflect.Value) {
 		if inElem.IsNil() {
 			return
 		}
-		out.Set(reflect.MakeSlice(inElem.Type(), inElem.Len(), inElem.Cap()))
-		d.deepCopy(inElem, out.Elem())
+		// go through deepCopySlice so a slice that (indirectly) contains
+		// itself maps to the same copy.
+		newSlice := reflect.New(inElem.Type()).Elem()
+		d.deepCopySlice(inElem, newSlice)
+		out.Set(newSlice)
 		return
 	case reflect.Array:
 		newVal := reflect.New(inElem.Type())
@@ -173,9 +188,20 @@ func (d *deepCopier) deepCopySlice(in, out reflect.Value) {
 		return
 	}
 
+	sKey := sliceKey{ptr: in.Pointer(), len: in.Len(), cap: in.Cap(), typ: in.Type()}
+	if sv, ok := d.sliceMap[sKey]; ok && in.Cap() > 0 && out.CanSet() {
+		// We've seen this slice before (it may contain itself via an
+		// interface value), reuse the copy.
+		out.Set(sv)
+		return
+	}
+
 	if (out.IsNil() || out.Pointer() == in.Pointer()) && out.CanSet() {
 		out.Set(reflect.MakeSlice(in.Type(), in.Len(), in.Cap()))
 	}
+	// Mark this slice as handled before descending so back-references in
+	// its elements resolve to the copy.
+	d.sliceMap[sKey] = out
 	// Copy the entire backing array
 	d.deepCopyArray(in.Slice(0, in.Cap()), out.Slice(0, out.Cap()))
 }
